@@ -218,6 +218,7 @@ Definition is_sess (ty : Z) : bool :=
   (ty =? T_LOGON) || (ty =? T_LOGOUT) || (ty =? T_RESENDREQ) || (ty =? T_HEARTBEAT) || (ty =? T_TESTREQ) || (ty =? T_SEQRESET).
 
 Definition gapfill_msg (b newseq : Z) : msg := mkMsg T_SEQRESET newseq (Some b) false true.
+(* the replayed copy: PossDupFlag / OrigSendingTime are set with replace=True, whatever the journaled row carries *)
 Definition replay_msg (f : frame) : msg := mkMsg (f_ty f) (f_id f) (Some (f_seq f)) true false.
 
 Definition mem_z (x : Z) (l : list Z) : bool := existsb (Z.eqb x) l.
@@ -240,17 +241,17 @@ Fixpoint replay_code (rs : list (Z * frame)) (d : list Z) (gfb gfe saved e' : Z)
            (if mem_z n d then replay_code rs' d gfb (n + 1) saved e'
             else let gfe' := if gfb <? n then n else gfe in
                  (if gfb <? gfe' then [ISend (gapfill_msg gfb gfe')] else [])
-                 ++ (if f_pd f then [IRaise EDupTag] else [ISend (replay_msg f)])
+                 ++ [ISend (replay_msg f)]
                  ++ replay_code rs' d (n + 1) gfe' saved e')
   end.
 
 Definition recover (b e : Z) (l : list (Z * frame)) : list (Z * frame) :=
   filter (fun r => (b <=? fst r) && (fst r <=? e)) l.
 
-(* BeginSeqNo below 1 is clamped to 1; recover_messages(begin, end or maxsize), remember next_num_out, the loop *)
+(* BeginSeqNo below 1 is clamped to 1, EndSeqNo 0 or beyond sys.maxsize means everything; recover_messages(begin, end or maxsize), remember next_num_out, the loop *)
 Definition resend_code (b0 e : Z) (d : list Z) (w : world) : list instr :=
   let b := Z.max b0 1 in
-  let e' := if e =? 0 then MAXSIZE else e in
+  let e' := if (e =? 0) || (MAXSIZE <? e) then MAXSIZE else e in
   replay_code (recover b e' (rows w)) d b b (nout w) e'.
 
 Definition finish (abort : bool) (out : list outcome) (w : world) : res := (mkT [] WDone out None abort, w).
